@@ -49,12 +49,13 @@ class PyM:
 
     origin = 0
 
-    def __init__(self, mh):
+    def __init__(self, mh, low=False):
         self.mh = mh
-        self.m = mh.PyMachine()
+        self.low = low
+        self.m = mh.PyMachine(active_low=low)
 
     def new(self):
-        return PyM(self.mh)
+        return PyM(self.mh, self.low)
 
     def event(self, ev):
         if ev["ev"] == "Key":
@@ -373,6 +374,20 @@ def judge(shard_id: int, recs: List[Dict[str, Any]]):
     return verdict
 
 
+def polarity_scripts():
+    """strobe values 0x00 / 0xFF / one column, a key held across the snapshot points, the key-input register read afterwards"""
+    def S(k, **kw):
+        return {"ev": "Step", "ins": dict({"k": k}, **kw)}
+    out = []
+    for v in (0x00, 0xFF, 0xFE, 0x01):
+        for code in (0x01, 0x09):
+            sc = [S("SETIMR", v=0), {"ev": "Key", "press": True, "code": code, "name": None}, S("STROBE", v=v)]
+            sc += [S("NOP")] * 3 + [S("READKIL"), S("NOP"), S("READKIL"), S("NOP"), S("NOP"), S("READKIL"), S("NOP")]
+            sc += [{"ev": "Key", "press": False, "code": code, "name": None}] + [S("NOP")] * 3 + [S("READKIL")] * 2 + [S("NOP")] * 4
+            out.append(sc)
+    return out
+
+
 def power_state_scripts():
     """scripts that END in each low-power state (cross loading happens at the end of a script): the bundle's power-state member
     as written by one implementation and read by the other, with and without idle steps after the HALT / OFF"""
@@ -439,8 +454,17 @@ def _job(arg):
     recs: List[Dict[str, Any]] = []
     layouts: Dict[str, Any] = {}
     try:
-        for machine in (PyM(mh), RsM(mh, vh)):
-            r, bundles = campaign(machine, scripts, tmp, shard_id)
+        # third machine: a Python emulator constructed with the keyboard columns active LOW (a fresh matrix of that polarity idles at
+        # KOL = 0xFF / KOH = 0x0F, so a saved strobe value of 0x00 differs from what the loading machine starts with); it runs the
+        # scripts that touch the keyboard plus dedicated strobe scripts
+        low_scripts = [sc for sc in scripts if any(a.get("ev") == "Key" or (a.get("ev") == "Step" and a["ins"]["k"] in ("STROBE", "READKIL")) for a in sc)][:6] + (polarity_scripts() if shard_id % 4 == 0 else [])
+        for machine, scs in ((PyM(mh), scripts), (RsM(mh, vh), scripts), (PyM(mh, low=True), low_scripts)):
+            if not scs:
+                continue
+            r, bundles = campaign(machine, scs, tmp, shard_id + (500 if getattr(machine, "low", False) else 0))
+            if getattr(machine, "low", False):
+                for x in r:
+                    x["replay"] = dict(x["replay"], low=1)
             recs += r
             for path, _ in bundles:
                 try:
@@ -536,7 +560,7 @@ def replay(path: str) -> int:
     if rec.get("kind") == "layout":
         return 1
     r = _job((99, [rec["script"]], "->" in rec["impl"]))
-    hit = [b for b in r[1] if b[7]["point"] == rec["point"] and b[1] == rec["impl"]]
+    hit = [b for b in r[1] if b[7]["point"] == rec["point"] and b[1] == rec["impl"] and int(b[7].get("low", 0)) == int(rec.get("low", 0))]
     for b in hit:
         print(b[:7])
     return 1 if hit else 0
